@@ -4,235 +4,15 @@
 //!   vcheck selftest                 validate the reference implementations
 //! exit 0 = held on everything explored, 1 = violation (VIOLATION line printed), 2 = machinery error
 
-mod alloc;
-mod faults;
-mod fixture;
-mod fsm;
-mod memlink;
-mod peer;
-mod props;
-mod report;
-mod runner;
-mod tls;
-mod wire;
-
-use runner::Tier;
-use std::path::PathBuf;
+use vcheck::runner::Tier;
 
 #[global_allocator]
-static GLOBAL: alloc::Counting = alloc::Counting;
-
-fn selftest() -> Result<(), String> {
-    vref::crypto::self_test()?;
-    vref::ntlm::self_test()?;
-    vref::rle::self_test()?;
-    Ok(())
-}
+static GLOBAL: vcheck::alloc::Counting = vcheck::alloc::Counting;
 
 fn main() {
-    let args: Vec<String> = std::env::args().collect();
-    if args.len() < 2 {
-        eprintln!("usage: vcheck <ID> quick|thorough | replay <file> | selftest");
-        std::process::exit(2);
-    }
-    match args[1].as_str() {
-        "--worker" => {
-            let id = &args[2];
-            let tier = Tier::parse(&args[3]).unwrap();
-            let w: u64 = args[4].parse().unwrap();
-            let nw: u64 = args[5].parse().unwrap();
-            let dir = PathBuf::from(&args[6]);
-            let from: u64 = args[7].parse().unwrap();
-            let inc: u64 = args[8].parse().unwrap();
-            let prop = props::sweep_prop(id).expect("unknown property");
-            std::process::exit(runner::worker_main(prop, tier, w, nw, &dir, from, inc));
-        }
-        "--one" => {
-            let id = &args[2];
-            let tier = Tier::parse(&args[3]).unwrap();
-            let idx: u64 = args[4].parse().unwrap();
-            let prop = props::sweep_prop(id).expect("unknown property");
-            std::process::exit(runner::one_main(prop, tier, idx, false));
-        }
-        "selftest" => match selftest() {
-            Ok(()) => println!("selftest ok"),
-            Err(e) => {
-                println!("SELFTEST FAILED: {}", e);
-                std::process::exit(2);
-            }
-        },
-        "replay" => {
-            let text = std::fs::read_to_string(&args[2]).expect("replay file");
-            let v: serde_json::Value = serde_json::from_str(&text).expect("replay json");
-            let id = v["property"].as_str().unwrap().to_string();
-            let tier = Tier::parse(v["tier"].as_str().unwrap()).unwrap();
-            if let Some(h) = v["history_codes"].as_array() {
-                runner::install_panic_hook();
-                let h: Vec<u8> = h.iter().map(|x| x.as_u64().unwrap() as u8).collect();
-                match fsm::run_history(&h) {
-                    Ok(keys) => {
-                        println!("replay: history holds; keys {:?}", keys);
-                        std::process::exit(0);
-                    }
-                    Err((sig, d)) => {
-                        println!("violation: {} :: {}", sig, d);
-                        println!("VIOLATION property={} replay={}", id, args[2]);
-                        std::process::exit(1);
-                    }
-                }
-            }
-            if let Some(prop) = props::sweep_prop(&id) {
-                let idx = v["idx"].as_u64().unwrap();
-                let code = runner::one_main(prop, tier, idx, true);
-                if code == 1 {
-                    println!("VIOLATION property={} replay={}", id, args[2]);
-                } else if code == 0 {
-                    println!("replay: no violation reproduced");
-                }
-                std::process::exit(code);
-            }
-            eprintln!("replay: unknown property {}", id);
-            std::process::exit(2);
-        }
-        id => {
-            let tier = match args.get(2).and_then(|s| Tier::parse(s)).or_else(|| std::env::var("VERIF_TIER").ok().and_then(|s| Tier::parse(&s))) {
-                Some(t) => t,
-                None => {
-                    eprintln!("tier must be quick or thorough");
-                    std::process::exit(2);
-                }
-            };
-            if let Err(e) = selftest() {
-                println!("SELFTEST FAILED: {}", e);
-                std::process::exit(2);
-            }
-            if id == "C12" {
-                std::process::exit(c12_main(tier));
-            }
-            if let Some(mut prop) = props::sweep_prop(id) {
-                match runner::run_parent(prop.as_mut(), tier) {
-                    Ok(rr) => std::process::exit(report::finish_sweep(prop.as_mut(), tier, &rr)),
-                    Err(e) => {
-                        println!("MACHINERY-ERROR property={} {}", id, e);
-                        std::process::exit(2);
-                    }
-                }
-            }
-            eprintln!("unknown property {}", id);
-            std::process::exit(2);
-        }
-    }
-}
-
-/// C12: explicit-state BFS to fixpoint (stateright + own closure) and all unmerged histories to a depth
-fn c12_main(tier: Tier) -> i32 {
-    use serde_json::json;
-    let t0 = std::time::Instant::now();
-    runner::install_panic_hook();
-    let saved_stdout = unsafe { libc::dup(1) };
-    runner::silence_stdout();
-    let b = fsm::bfs();
-    unsafe {
-        libc::dup2(saved_stdout, 1);
-        libc::close(saved_stdout);
-    }
-    let mut prop = fsm::C12Histories::new();
-    let rr = match runner::run_parent(&mut prop, tier) {
-        Ok(r) => r,
-        Err(e) => {
-            println!("MACHINERY-ERROR property=C12 {}", e);
-            return 2;
-        }
-    };
-    let findings = report::load_findings();
-    let mut unlisted = 0;
-    let mut known = 0;
-    let mut viols = vec![];
-    let mut handle = |sig: &str, body: serde_json::Value, detail: &str| {
-        let path = report::write_replay("C12", tier, sig, body);
-        if let Some(f) = report::match_finding(&findings, "C12", sig) {
-            println!("KNOWN-FINDING: property=C12 {} [sig={}]", f.what, sig);
-            known += 1;
-        } else {
-            println!("VIOLATION property=C12 replay={}", path);
-            println!("  sig: {}", sig);
-            println!("  detail: {}", detail.chars().take(700).collect::<String>());
-            unlisted += 1;
-        }
-        viols.push(json!({"sig": sig, "replay": path}));
-    };
-    if let Some((h, sig, d)) = &b.violation {
-        handle(sig, json!({"history_codes": h, "history": h.iter().map(|e| fsm::EVENTS[*e as usize]).collect::<Vec<_>>(), "detail": d, "found_by": "bfs"}), d);
-    }
-    {
-        use runner::Prop;
-        for (sig, (idx, count, detail)) in &rr.viols {
-            if b.violation.as_ref().map(|v| &v.1) == Some(sig) {
-                continue;
-            }
-            let desc = prop.describe(*idx);
-            let codes: Vec<u8> = desc["history"].as_array().map(|a| a.iter().map(|n| fsm::EVENTS.iter().position(|e| Some(*e) == n.as_str()).unwrap_or(0) as u8).collect()).unwrap_or_default();
-            handle(sig, json!({"idx": idx, "history_codes": codes, "history": desc["history"], "detail": detail, "occurrences": count, "found_by": "unmerged histories"}), detail);
-        }
-    }
-    // differential check of the canonicalisation: every key reached by an unmerged history is a BFS state
-    let bfs_keys: std::collections::BTreeSet<String> = b.states.iter().map(|k| format!("key:{}:{}", k.impl_state, k.share.map(|s| format!("{:#x}", s)).unwrap_or_else(|| "none".into()))).collect();
-    let mut machinery = None;
-    for c in rr.classes.keys() {
-        if c.starts_with("key:") && !bfs_keys.contains(c) {
-            machinery = Some(format!("key {} reached by an unmerged history is not in the BFS fixpoint {:?}", c, bfs_keys));
-        }
-    }
-    let accepting = b.states.iter().filter(|k| k.impl_state == 5).count();
-    let refusing = b.states.len() - accepting;
-    if (accepting == 0 || refusing == 0) && b.violation.is_none() {
-        machinery = Some("vacuous exploration: input window never opens or never closes".into());
-    }
-    let n_ev = fsm::EVENTS.len();
-    {
-        use runner::Prop;
-        report::write_evidence(&report::Evidence {
-            property: "C12".into(),
-            tier,
-            level: "model_checking".into(),
-            coverage: json!({
-                "states": b.states.len(),
-                "transitions": b.transitions,
-                "traces_validated_against_impl": b.replays + rr.evals,
-                "samples": rr.samples,
-                "state_keys": b.states.iter().map(|k| format!("{:?}", k)).collect::<Vec<_>>(),
-                "bfs_max_depth": b.max_depth,
-                "alphabet": fsm::EVENTS,
-                "unmerged_histories": rr.evals,
-                "unmerged_depth": if tier == Tier::Quick { 5 } else { 6 },
-                "histories_in_which_input_window_opened": rr.nontrivial,
-                "states_accepting_input": accepting,
-                "states_refusing_input": refusing,
-                "evaluations": rr.evals + b.transitions,
-                "distinct_nontrivial": rr.nontrivial,
-                "rule": prop.rule(),
-                "exhaustive": true,
-                "explanation": format!("BFS to fixpoint over canonical keys (real global::Client state id x share id) with {} events per state, every transition executed by replaying the history on a fresh real client; plus every history of length <= depth without merging, whose final keys must all lie in the BFS fixpoint", n_ev),
-                "violations_detail": viols,
-                "known_findings_matched": known,
-            }),
-            assumptions: vec![
-                "server PDUs are well formed (malformed ones are C06); one representative encoding per alphabet letter".into(),
-                "a deactivate-all received during activation may either be ignored or restart activation (the statement is silent)".into(),
-                "canonical state = (automaton state id, share id) read through hook H2; soundness of the merge is checked by the unmerged exploration".into(),
-            ],
-            wall_s: t0.elapsed().as_secs_f64(),
-            violations: unlisted,
-        });
-    }
-    println!("C12 {}: bfs-states={} transitions={} unmerged-histories={} violations={} known={} wall={:.1}s", tier.name(), b.states.len(), b.transitions, rr.evals, unlisted, known, t0.elapsed().as_secs_f64());
-    if let Some(m) = machinery {
-        println!("MACHINERY-ERROR property=C12 {}", m);
-        return 2;
-    }
-    if unlisted > 0 {
-        1
-    } else {
-        0
-    }
+    vcheck::cli_main(
+        &|id| vcheck::props::sweep_prop(id),
+        &|id, tier: Tier| if id == "C12" { Some(vcheck::c12_main(tier)) } else { None },
+        &|v, path| vcheck::c12_replay(v, path),
+    );
 }
